@@ -124,6 +124,12 @@ func freePort() int {
 	panic("no free port")
 }
 
+// FreePort hands out one locked, probed port of the check's block; call release when done with it.
+func FreePort() (port int, release func()) {
+	p := freePort()
+	return p, func() { unlockPorts([4]int{p}) }
+}
+
 // InstCfg configures an in-process Simple IoT instance.
 type InstCfg struct {
 	ID        string
